@@ -33,6 +33,9 @@ def matrix(tier, rnd):
             for pending in pend:
                 add(P.lifecycle_scenario(0, cause, point, pending, after_api=False))
     add(P.lifecycle_scenario(0, "cancel", "before-run", "none"))
+    for cause in ("quit", "kill", "cancel", "interrupt"):
+        for point in ("idle", "update"):
+            add(P.lifecycle_scenario(0, cause, point, "flood"))      # 300 commands that never return are in flight
     # two causes: a message-borne cause parked behind a busy loop, then an external one
     for first in ("quit", "interrupt", "cmdpanic"):
         for second in ("kill", "cancel"):
